@@ -246,11 +246,7 @@ func runC10(c *eng.Ctx) {
 			raw := p.Field(pkgCfg, "HookConfigV1", pr[0])
 			eff := p.Field(pkgCfg, "HookConfig", pr[1])
 			ok := false
-			eng.InspectNoLit(f.Decl.Body, func(n ast.Node) bool {
-				rs, isR := n.(*ast.RangeStmt)
-				if !isR || !eng.IsField(info, rs.X, raw) {
-					return true
-				}
+			for _, el := range elemLoopsOver(info, f.Decl.Body, func(x ast.Expr) bool { return eng.IsField(info, x, raw) }) {
 				isApp := func(m *eng.GNode) bool {
 					as, isA := m.Node.(*ast.AssignStmt)
 					if !isA || len(as.Lhs) != 1 || !eng.IsField(info, as.Lhs[0], eff) {
@@ -260,24 +256,19 @@ func runC10(c *eng.Ctx) {
 					return ap != nil && len(ap.Args) == 2 && eng.IsField(info, ap.Args[0], eff)
 				}
 				// only error returns may skip the append
-				var bodyEntry *eng.GNode
-				for _, gn := range g.Nodes {
-					if gn.Node == nil && gn.Block.Stmt == ast.Stmt(rs) && gn.Block.Kind.String() == "RangeBody" {
-						bodyEntry = gn
-					}
-				}
-				if bodyEntry == nil || !eng.IsAscendingLoop(info, rs) {
-					return true
+				bodyEntry := loopBodyEntryOf(g, el.Stmt)
+				if bodyEntry == nil || el.Desc {
+					continue
 				}
 				ok = true
+				isHead := isLoopHeadOf(el.Stmt)
 				reach := g.Reach(eng.Query{From: []*eng.GNode{bodyEntry}, AvoidNode: isApp})
 				for m := range reach {
-					if m.Node == nil && m.Block.Stmt == ast.Stmt(rs) && m.Block.Kind.String() == "RangeLoop" {
+					if isHead(m) {
 						ok = false
 					}
 				}
-				return true
-			})
+			}
 			r6.Check(ok, f.Key+" "+pr[0]+" -> "+pr[1], f.Decl.Pos(), "one append per declared binding, in declared order", "the effective "+pr[1]+" list is not `one element per declared binding, in declared order`")
 		}
 	}
